@@ -62,6 +62,28 @@ Theorem C15_assignment_touches_nothing_else :
 Proof. exact set_sem_frame. Qed.
 Print Assumptions C15_assignment_touches_nothing_else.
 
+(* a member observer may refuse its value half way through the loop (raysect's validation); also
+   then nothing but that attribute of the members before it is touched, and the group's own length
+   check still comes first *)
+Theorem C15_member_refusal_touches_nothing_else :
+  forall d v k e g, wf_descr d = true ->
+  Forall2 (same_except (member_attr (d_name d))) g (fst (set_sem_rej d v k e g))
+  /\ ((forall ks tag, d_shape d <> TypedBroadcast ks tag) ->
+      forall vs, seq_view d v = Some vs -> List.length vs <> List.length g ->
+      set_sem_rej d v k e g = (g, Raised EValue)).
+Proof.
+  intros d v k e g W; split; [now apply set_sem_rej_frame | intros NT vs; apply set_sem_rej_wrong_length; [apply (wf_attrs d W) | exact NT]].
+Qed.
+Print Assumptions C15_member_refusal_touches_nothing_else.
+
+(* a value written on a member directly (not through the group) is what the group reads next *)
+Theorem C15_direct_member_change_is_read_back :
+  forall c e g d id v, wf_descr d = true ->
+  get_sem d (fst (step c e g (ODirect id (member_attr (d_name d)) v)))
+  = map (fun m => if mid m =? id then v else mget (member_attr (d_name d)) m) g.
+Proof. exact direct_then_read. Qed.
+Print Assumptions C15_direct_member_change_is_read_back.
+
 (* every table that passes the boolean test satisfies the four claims at every broadcast attribute;
    Gen/C15/Tie_wf.v establishes the hypothesis for the table regenerated from the source *)
 Theorem C15_table_entries_satisfy_the_property :
